@@ -148,6 +148,13 @@ static void apply(char *op)
 		do_write(f, i, strtoull(t[2], 0, 10), atoi(t[3]), name);
 		e = ext2fs_file_close(f);
 		if (e) { adderr(name, e); M[i].degraded = 1; }
+	} else if (t[0][0] == 'g' && n == 4) {
+		/* grid: n single blocks at every stride-th block (a prefix that builds a deep extent tree / long indirect chains); verified once at the end */
+		ext2_file_t f; errcode_t e = ext2fs_file_open(fs, ino[i], EXT2_FILE_WRITE, &f); int k, cnt = atoi(t[2]), stride = atoi(t[3]);
+		if (e) { setbad("%s: open for writing failed: %ld", name, (long) e); return; }
+		for (k = 0; k < cnt; k++) do_write(f, i, (unsigned long long) k * stride * fs->blocksize, fs->blocksize, name);
+		e = ext2fs_file_close(f);
+		if (e) { adderr(name, e); M[i].degraded = 1; }
 	} else if (t[0][0] == 'v' && n == 6) {
 		ext2_file_t f; errcode_t e = ext2fs_file_open(fs, ino[i], EXT2_FILE_WRITE, &f); static unsigned char buf[8192]; unsigned got; __u64 pos;
 		unsigned long long o1 = strtoull(t[2], 0, 10);
